@@ -106,23 +106,22 @@ func main() {
 	if *tier == "thorough" {
 		timeout = 300000
 	}
-	eng.workersPerHarness = *workers / len(sel)
-	if eng.workersPerHarness < 1 {
-		eng.workersPerHarness = 1
-	}
-	if eng.workersPerHarness > 8 && len(sel) > 1 {
-		eng.workersPerHarness = 8
+	eng.maxWorkers = *workers
+	eng.tokens = make(chan struct{}, *workers)
+	for i := 0; i < *workers; i++ {
+		eng.tokens <- struct{}{}
 	}
 	results := make([]*HarnessResult, len(sel))
 	var wg sync.WaitGroup
-	sem := make(chan struct{}, *workers)
 	for i, h := range sel {
 		wg.Add(1)
 		go func(i int, h *Harness) {
 			defer wg.Done()
-			sem <- struct{}{}
-			defer func() { <-sem }()
 			results[i] = eng.runHarness(h, *solver, timeout)
+			if *verbose || os.Getenv("GOSYM_PROGRESS") != "" {
+				r := results[i]
+				fmt.Fprintf(os.Stderr, "[done %s] paths=%d %v wall=%v violations=%d problems=%d\n", h.Name, len(r.Paths), r.Status, r.Wall.Round(time.Millisecond), len(r.Violations), len(r.Problems))
+			}
 		}(i, h)
 	}
 	wg.Wait()
@@ -316,11 +315,31 @@ func writeEvidence(dir, prop, tier string, results []*HarnessResult, eng *Engine
 }
 
 func propLevel(prop string) string {
-	switch prop {
-	case "C01", "C02", "C18":
-		return "translation_validation"
-	case "C17":
-		return "other"
+	// the level is whatever MANIFEST.json claims for this property
+	for _, f := range []string{os.Getenv("VERIF_MANIFEST"), "MANIFEST.json", "/verif/MANIFEST.json"} {
+		if f == "" {
+			continue
+		}
+		b, err := os.ReadFile(f)
+		if err != nil {
+			continue
+		}
+		var m struct {
+			Checks []struct {
+				ID    string `json:"property_id"`
+				Level struct {
+					Category string `json:"category"`
+				} `json:"level_claimed"`
+			} `json:"checks"`
+		}
+		if json.Unmarshal(b, &m) != nil {
+			continue
+		}
+		for _, c := range m.Checks {
+			if c.ID == prop && c.Level.Category != "" {
+				return c.Level.Category
+			}
+		}
 	}
 	return "model_checking"
 }
